@@ -169,6 +169,18 @@ def gen_django_sql(rng, thorough):
         ("where=[]", False), ("tables=[]", False), ("select={'a': 'b', **more}", "?"), ("**kw", "?"), ("*a", "?"), ("where=[*ws]", True),
         ("select={'a': f'{x}'}", True), ("where=['a' 'b']", False), ("where=[b'a']", True),
     ]
+    # every combination of the three inspected keywords, each absent / all-literal / computed, in every keyword order: insecure iff ANY of them is computed
+    # (seeded change C17-m1: a later all-literal `tables` reset the flag a computed `where` had set)
+    import itertools
+    opts = {"where": [None, ("['a = 1']", False), ("[w]", True), ("['a = %s' % x, 'b']", True)], "tables": [None, ("['t']", False), ("[t]", True), ("['t', u]", True)],
+            "select": [None, ("{'a': 'b'}", False), ("{'a': x}", True)]}
+    for wv, tv, sv in itertools.product(opts["where"], opts["tables"], opts["select"]):
+        kws = [(k, v) for k, v in (("where", wv), ("tables", tv), ("select", sv)) if v is not None]
+        if len(kws) < 2:
+            continue
+        orders = list(itertools.permutations(kws)) if thorough else [tuple(kws), tuple(reversed(kws))]
+        for order in orders:
+            shapes.append((", ".join(f"{k}={v[0]}" for k, v in order), any(v[1] for _, v in order)))
     recv = ["User.objects.all().extra({a})", "qs.extra({a})", "Model.objects.filter(a=1).extra({a}).distinct()"]
     for args, insecure in shapes:
         for r in (recv if thorough else recv[:2]):
@@ -553,7 +565,11 @@ XSS_SIMPLE = ["{v} = 'lit'", "{v} = {w}", "{v} = fn()", "{v} = '{{}}'.format({w}
               "fn({v})", "{v} = '{{}}'.format(*fn())", "{v} = '{{}}'.format(*[*['a'], {w}])"]
 XSS_COMPOUND = ["if c:\n{S}else:\n{T}", "if c:\n{S}", "for i in r:\n{S}", "for i in r:\n{S}else:\n{T}", "while c:\n{S}", "try:\n{S}except E:\n{T}", "try:\n{S}except E:\n{T}finally:\n{U}",
                 "try:\n{S}finally:\n{T}", "with o as {v}:\n{S}", "with o as g:\n{S}", "with o as g, p as {v}:\n{S}", "with o as {v}, p as g:\n{S}", "def h_():\n{S}", "class K_:\n{S}",
-                "async def ah_():\n{S}", "if c:\n{S}elif d:\n{T}else:\n{U}", "try:\n{S}except* E:\n{T}", "match c:\n    case 1:\n{SS}"]
+                "async def ah_():\n{S}", "if c:\n{S}elif d:\n{T}else:\n{U}", "try:\n{S}except* E:\n{T}", "match c:\n    case 1:\n{SS}",
+                # loop / with targets of every grammatical kind (seeded change C06-m2: a new For branch read node.target.id)
+                "for {v} in r:\n{S}", "for k, {v} in r:\n{S}", "for o.attr in r:\n{S}", "for d[0] in r:\n{S}", "for {v}, *rest in r:\n{S}", "for [k, ({v}, m)] in r:\n{S}",
+                "async for {v} in r:\n{S}", "async for k, m in r:\n{S}else:\n{T}", "with o as (g, {v}):\n{S}", "with o as o.attr:\n{S}", "with o:\n{S}", "with o as d[0], p:\n{S}",
+                "async with o as {v}:\n{S}", "while (n := fn()):\n{S}else:\n{T}", "try:\n{S}except (E, F) as {v}:\n{T}else:\n{U}", "match c:\n    case [{v}, *_]:\n{SS}    case _:\n{SS}"]
 XSS_ARGS = ["{v}", "'lit'", "'{{}}'.format({v})", "'%s' % {v}", "'%s%s' % ({v}, {w})", "fn({v})", "'{{}}'.format(*[{v}])", "{v} + {w}", "'{{}}'.format({v}, {w})", "'{{}}'.format('{{}}'.format({v}))",
             "'%s' % 'k'", "'{{}}'.format(\n    {v})", "{v}.format('a')", "'%s' % ({v},)", "'%d' % 5", "'{{}}'.format(*({v}, *['a']))"]
 
